@@ -39,6 +39,15 @@ impl Drop for DropFlag {
     }
 }
 
+/// set (after a delay) when the task that owns it has been torn down
+struct SlowDropFlag(Arc<AtomicBool>);
+impl Drop for SlowDropFlag {
+    fn drop(&mut self) {
+        thread::sleep(Duration::from_millis(120));
+        self.0.store(true, Ordering::SeqCst);
+    }
+}
+
 fn wait_flag(f: &AtomicBool, d: Duration) -> bool {
     let t = Instant::now();
     while t.elapsed() < d {
@@ -128,6 +137,27 @@ pub struct C09Case {
     /// constructor of the System (see `make_system`)
     #[serde(default)]
     pub sys_rt: u8,
+    /// another System has been created, run and stopped on this OS thread before
+    #[serde(default)]
+    pub prior_system: bool,
+}
+
+/// an earlier System on this very thread, run to completion
+fn run_prior_system() -> Result<(), Fail> {
+    let first = System::new();
+    let ran = Arc::new(AtomicBool::new(false));
+    let r2 = ran.clone();
+    first.block_on(async move {
+        let _ = Arbiter::current().spawn_fn(move || r2.store(true, Ordering::SeqCst));
+        tokio::task::yield_now().await;
+        tokio::task::yield_now().await;
+    });
+    System::current().stop();
+    let _ = first.run();
+    if !ran.load(Ordering::SeqCst) {
+        return Err(Fail::new("harness/setup", "the prior system did not run its task"));
+    }
+    Ok(())
 }
 
 struct SlowDrop(u8);
@@ -157,6 +187,9 @@ pub fn check_c09(c: &C09Case) -> CaseResult {
 }
 
 fn run_c09(c: &C09Case) -> CaseResult {
+    if c.prior_system {
+        run_prior_system()?;
+    }
     let runner = make_system(c.sys_rt);
     let sys = System::current();
     let sys_id = sys.id();
@@ -237,7 +270,8 @@ fn run_c09(c: &C09Case) -> CaseResult {
     for s in slots.iter() {
         if let (Fate::BusyBacklog { ms, n }, Some(a)) = (s.fate, s.arb.as_ref()) {
             a.spawn_fn(move || thread::sleep(Duration::from_millis(15 + ms as u64 % 30)));
-            for _ in 0..(33 + n as usize % 128) {
+            // usually 33..160 commands, one time in sixteen 1500 (beyond any bounded queue)
+            for _ in 0..(if n % 16 == 7 { 1500 } else { 33 + n as usize % 128 }) {
                 let r = backlog_ran.clone();
                 if a.spawn_fn(move || {
                     r.fetch_add(1, Ordering::SeqCst);
@@ -384,6 +418,7 @@ fn run_c09(c: &C09Case) -> CaseResult {
     obs.label_if(had_between, "arbiter-created-between-two-stops");
     obs.label_if(c.sys_rt % 3 != 0, "system-with_tokio_rt");
     obs.label_if(c.sys_rt % 3 == 2, "multi-thread-system-runtime");
+    obs.label_if(c.prior_system, "second-system-on-this-thread");
     obs.label_if(c.arbiters.iter().any(|f| matches!(f, Fate::CustomRt { .. })), "with_tokio_rt");
     obs.label_if(c.arbiters.iter().any(|f| matches!(f, Fate::CustomRt { slow: true })), "slow-runtime-factory");
     Ok(obs)
@@ -455,7 +490,7 @@ pub fn fresh_process_cases() -> Vec<C09Case> {
                 k /= 3;
             }
             for from in [StopFrom::SystemTask, StopFrom::Foreign] {
-                v.push(C09Case { arbiters: arbiters.clone(), from, code: if code % 2 == 0 { 0 } else { 7 }, second: None, plain_run: false, jitter: [0, 0, 0], arbiter_between: false, sys_rt: 0 });
+                v.push(C09Case { arbiters: arbiters.clone(), from, code: if code % 2 == 0 { 0 } else { 7 }, second: None, plain_run: false, jitter: [0, 0, 0], arbiter_between: false, sys_rt: 0, prior_system: false });
             }
         }
     }
@@ -479,6 +514,9 @@ pub enum Kind {
     Gated { hold: u8 },
     /// calls Arbiter::current().stop() and then spawn_fn from the arbiter's own thread
     SelfStopThenSpawn,
+    /// sends a function to `System::current().arbiter()` (the system's own arbiter) from inside
+    /// the task: it must run on the system's thread, not on this arbiter's
+    ViaSystemArbiter,
 }
 
 #[derive(Clone, Copy, Debug, Serialize, Deserialize, PartialEq)]
@@ -510,6 +548,9 @@ pub struct C10Case {
     /// ... with a multi-thread runtime (commands must still run on the arbiter's own thread)
     #[serde(default)]
     pub custom_rt_multi: bool,
+    /// join() is called only after the arbiter's loop has been seen to have ended (spawn reports false)
+    #[serde(default)]
+    pub join_late: bool,
     /// the sender threads belong to another System (each creates one of its own before sending)
     #[serde(default)]
     pub foreign_senders: bool,
@@ -537,6 +578,8 @@ struct Shared {
     wrong: Mutex<Vec<String>>,
     /// set before any stop() of the arbiter under test is called
     stop_sent: AtomicBool,
+    /// threads on which functions sent to `System::current().arbiter()` from a task ran
+    via_system: Mutex<Vec<ThreadId>>,
 }
 
 impl Shared {
@@ -571,25 +614,12 @@ enum SenderCmd {
 
 fn run_c10(c: &C10Case) -> CaseResult {
     if c.prior_system {
-        // an earlier System on this very thread, run to completion
-        let first = System::new();
-        let ran = Arc::new(AtomicBool::new(false));
-        let r2 = ran.clone();
-        first.block_on(async move {
-            let _ = Arbiter::current().spawn_fn(move || r2.store(true, Ordering::SeqCst));
-            tokio::task::yield_now().await;
-            tokio::task::yield_now().await;
-        });
-        System::current().stop();
-        let _ = first.run();
-        if !ran.load(Ordering::SeqCst) {
-            return Err(Fail::new("harness/setup", "the prior system did not run its task"));
-        }
+        run_prior_system()?;
     }
     let runner = make_system(c.sys_rt);
     let sys = System::current();
     let sys_id = sys.id();
-    let sh = Arc::new(Shared { next_id: AtomicUsize::new(0), next_nested: AtomicUsize::new(NESTED), starts: Mutex::new(vec![]), after_stop: Mutex::new(vec![]), wrong: Mutex::new(vec![]), stop_sent: AtomicBool::new(false) });
+    let sh = Arc::new(Shared { next_id: AtomicUsize::new(0), next_nested: AtomicUsize::new(NESTED), starts: Mutex::new(vec![]), after_stop: Mutex::new(vec![]), wrong: Mutex::new(vec![]), stop_sent: AtomicBool::new(false), via_system: Mutex::new(vec![]) });
     let arb = if c.system_arbiter {
         None
     } else if c.custom_rt {
@@ -657,6 +687,8 @@ fn run_c10(c: &C10Case) -> CaseResult {
     let mut sent_order: Vec<usize> = vec![]; // ids of top-level tasks in send order (before any stop)
     let mut stop_returned = false;
     let mut pend_flags: Vec<Arc<AtomicBool>> = vec![];
+    // (started, torn down) of tasks that pend forever and take 120 ms to drop
+    let mut slow_flags: Vec<(Arc<AtomicBool>, Arc<AtomicBool>)> = vec![];
     // (release channel, sends left until release, ack that the nested command has been sent)
     let mut gates: Vec<(mpsc::Sender<()>, u32, mpsc::Receiver<()>)> = vec![];
     let mut labels: Vec<&'static str> = vec![];
@@ -713,10 +745,16 @@ fn run_c10(c: &C10Case) -> CaseResult {
                     gate_rx = Some((grx, dtx));
                     labels.push("gated");
                 }
+                let mut slow_flag = None;
                 if matches!(k, Kind::PendForever) {
                     let f = Arc::new(AtomicBool::new(false));
                     pend_flags.push(f.clone());
                     pend_flag = Some(f);
+                    if c.join_late && slow_flags.is_empty() {
+                        let pair = (Arc::new(AtomicBool::new(false)), Arc::new(AtomicBool::new(false)));
+                        slow_flags.push(pair.clone());
+                        slow_flag = Some(pair);
+                    }
                 }
                 if matches!(k, Kind::Gated { .. }) {
                     let (rtx, rrx) = mpsc::channel::<()>();
@@ -758,6 +796,10 @@ fn run_c10(c: &C10Case) -> CaseResult {
                 let fut = async move {
                     sh2.start(id);
                     let _pf = pend_flag.map(DropFlag);
+                    let _sf = slow_flag.map(|(started, dropped)| {
+                        started.store(true, Ordering::SeqCst);
+                        SlowDropFlag(dropped)
+                    });
                     match k {
                         Kind::Complete | Kind::Gated { .. } => {}
                         Kind::Yield { n } => {
@@ -786,6 +828,10 @@ fn run_c10(c: &C10Case) -> CaseResult {
                             if !accepted && !sh4.stop_sent.load(Ordering::SeqCst) {
                                 sh4.wrong.lock().unwrap().push("Arbiter::current().spawn_fn reported false inside a task of an arbiter nobody has stopped: Arbiter::current() does not identify the arbiter the task runs on".into());
                             }
+                        }
+                        Kind::ViaSystemArbiter => {
+                            let sh3 = sh2.clone();
+                            let _ = System::current().arbiter().spawn_fn(move || sh3.via_system.lock().unwrap().push(thread::current().id()));
                         }
                         Kind::SelfStopThenSpawn => {
                             let a = Arbiter::current();
@@ -909,8 +955,25 @@ fn run_c10(c: &C10Case) -> CaseResult {
     }
     match arb {
         Some(a) => {
+            if c.join_late {
+                // the loop is seen to have ended (the command channel is closed) before join() is called
+                let t = Instant::now();
+                while handle.spawn(async {}) && t.elapsed() < Duration::from_secs(1) {
+                    thread::sleep(Duration::from_millis(1));
+                }
+            }
             if join_timeout(a, WATCHDOG).is_err() {
                 return Err(Fail::new("C10/join-hangs", "join() did not return after stop()"));
+            }
+            // join() returns only after the arbiter's thread is through: every task it still held
+            // has been torn down by then
+            for (started, dropped) in &slow_flags {
+                if started.load(Ordering::SeqCst) && !dropped.load(Ordering::SeqCst) {
+                    return Err(Fail::new("C10/join-before-teardown", "join() returned while the arbiter thread was still tearing down a task that was pending at the stop (its destructor had not finished)"));
+                }
+            }
+            if !slow_flags.is_empty() {
+                labels.push("join-after-loop-end-with-slow-teardown");
             }
             // after join: the loop has ended
             if handle.spawn(async {}) {
@@ -947,6 +1010,17 @@ fn run_c10(c: &C10Case) -> CaseResult {
     let starts = sh.starts.lock().unwrap().clone();
     if !c.system_arbiter && starts.len() != n_after_join {
         return Err(Fail::new("C10/runs-after-join", format!("{} task(s) started after join() had returned", starts.len() - n_after_join)));
+    }
+    // functions sent to the system's own arbiter from a task of the thread arbiter ran on the system's thread
+    if !c.system_arbiter {
+        let me = thread::current().id();
+        let via = sh.via_system.lock().unwrap().clone();
+        if let Some(t) = via.iter().find(|t| **t != me) {
+            return Err(Fail::new("C10/system-arbiter-wrong-thread", format!("a function sent to System::current().arbiter() from a task of a thread arbiter ran on {:?}; the system's arbiter lives on {:?}", t, me)));
+        }
+        if !via.is_empty() {
+            labels.push("system-arbiter-reached-from-a-worker-task");
+        }
     }
     // at most once
     let mut ids: Vec<usize> = starts.iter().map(|s| s.id).collect();
@@ -1031,14 +1105,15 @@ pub mod gen {
             [0u16..300, 0u16..300, 0u16..300],
             prop::bool::weighted(0.5),
             prop_oneof![3 => Just(0u8), 1 => Just(1u8), 1 => Just(2u8)],
+            prop::bool::weighted(0.3),
         )
-            .prop_map(|(arbiters, from, code, second, plain_run, jitter, arbiter_between, sys_rt)| {
+            .prop_map(|(arbiters, from, code, second, plain_run, jitter, arbiter_between, sys_rt, prior_system)| {
                 // a sequenced second stop with the same code cannot be told apart
                 let second = match second {
                     Some(Second::Sequenced { code: c2 }) if c2 == code => Some(Second::Sequenced { code: code.wrapping_add(5) }),
                     s => s,
                 };
-                C09Case { arbiters, from, code, second, plain_run, jitter, arbiter_between, sys_rt }
+                C09Case { arbiters, from, code, second, plain_run, jitter, arbiter_between, sys_rt, prior_system }
             })
     }
 
@@ -1051,6 +1126,7 @@ pub mod gen {
             2 => Just(Kind::Nested),
             2 => any::<u8>().prop_map(|hold| Kind::Gated { hold }),
             1 => Just(Kind::SelfStopThenSpawn),
+            1 => Just(Kind::ViaSystemArbiter),
         ]
     }
 
@@ -1062,7 +1138,7 @@ pub mod gen {
             1 => Just(COp::Stop),
             1 => any::<u8>().prop_map(|n| COp::Burst { n }),
         ];
-        (prop::collection::vec((0u8..3, op), 1..12), 1u8..4, prop::bool::weighted(0.3), [0u16..300, 0u16..600], prop::bool::weighted(0.4), prop::bool::weighted(0.3), prop::bool::weighted(0.3), prop_oneof![3 => Just(0u8), 1 => Just(1u8), 1 => Just(2u8)], any::<bool>())
-            .prop_map(|(ops, senders, system_arbiter, jitter, prior_system, custom_rt, foreign_senders, sys_rt, custom_rt_multi)| C10Case { ops, senders, system_arbiter, jitter, prior_system, custom_rt, foreign_senders, sys_rt, custom_rt_multi })
+        (prop::collection::vec((0u8..3, op), 1..12), 1u8..4, prop::bool::weighted(0.3), [0u16..300, 0u16..600], prop::bool::weighted(0.4), prop::bool::weighted(0.3), prop::bool::weighted(0.3), prop_oneof![3 => Just(0u8), 1 => Just(1u8), 1 => Just(2u8)], any::<bool>(), prop::bool::weighted(0.3))
+            .prop_map(|(ops, senders, system_arbiter, jitter, prior_system, custom_rt, foreign_senders, sys_rt, custom_rt_multi, join_late)| C10Case { ops, senders, system_arbiter, jitter, prior_system, custom_rt, foreign_senders, sys_rt, custom_rt_multi, join_late })
     }
 }
